@@ -21,6 +21,9 @@ RULE = ('two consumer probes (random signature incl. defaults, kw-only, allow/de
         'read and compared after every step (1/8 of the cases) or after one step (1/4), and under other (max_line_length, continuation_indent); '
         'every binding line must sit under the header of its own (scope, configurable), no header and no line twice, macro definitions outside the '
         'parameter sections. '
+        'Registration histories (15% of the cases): a per-case provider referenced from bindings / macros / other providers under a then-unique short, '
+        'partial or complete selector; in mid-history a same-named configurable (other module, any API, fn or class; optionally called; optionally '
+        'also a twin of a consumer) is registered; references in the text are compared by the configurable they resolve to and must resolve uniquely. '
         'distinct = (signature features, tree features, scopes used, override pattern, history length)')
 TIERS = {
     'quick': {'workers': 8, 'cases': 1350, 'timeout': 600},
@@ -52,6 +55,20 @@ ENABLE_FORMATS = True     # operative_config_str(max_line_length, continuation_i
 # 'dotted-scope-component-printed-but-not-parseable'; reported under exactly that key, and only if nothing else is wrong with the text
 ENABLE_DOTTED_SCOPES = True
 DOT = '_DOT_'
+# registration is part of a history: a provider (fresh name per case) is referenced by bindings / macros / other providers under a selector that
+# is unique when they are made (short name, partial or complete selector); in mid-history another configurable whose selector ends in the same
+# name is registered (other module, any API, function or class; optionally called itself, optionally also a same-named twin of a consumer).
+# The record is untouched by that: the text taken afterwards must still list every Gin-supplied reference, spelled so that it identifies its
+# target, and must replay.  References are compared by (scope, configurable they resolve to, evaluated), not by spelling.
+ENABLE_LATE_REGISTRATION = True
+LATE = 'C7LATE'            # placeholder of the per-case provider name in generated cases (run_case substitutes the registered name)
+LATE_MODULE = 'c7l.alpha'
+LATE_SPELLINGS = [LATE, LATE, 'alpha.' + LATE, LATE_MODULE + '.' + LATE]
+# module of the twin: the short name / the short name and 'alpha.<name>' / every proper suffix incl. the complete selector's own spelling matches both
+TWIN_MODULES = ['c7l.beta', 'c7k.alpha', 'zz.c7l.alpha']
+REQUIRED_BUCKETS = REQUIRED_BUCKETS + ['history:same-named-configurable-registered-after-reference-was-bound',
+                                       'ref:recorded-reference-written-with-now-ambiguous-selector', 'replay:after-late-registration',
+                                       'history:same-named-twin-called', 'history:same-named-twin-of-consumer-registered']
 FORMATS = [[12, 0], [1, 7], [200, 2], [30, 8], [79, 4]]
 SUB, BASE = 2, 3          # indices of the fixed configurable subclass / base class in a case's probe list
 ORACLE_COUNTERS = ['oracle_evals', 'texts_compared', 'replays']
@@ -182,7 +199,7 @@ def tree_repr(t):
   if k == 'obj':
     return None
   if k == 'ref':
-    return ('ok', ('@ref', '/'.join(t[2] + [t[1]]), bool(t[3])))
+    return ('ok', ('@ref', '/'.join(t[2] + [prov(t[1]).selector]), bool(t[3])))   # the configurable it names, whatever the spelling
   if k == 'macro':
     return ('ok', ('%macro', t[1]))
   if k == 'const':  # a constant reference is printed under the constant's complete name
@@ -196,6 +213,67 @@ def tree_repr(t):
   if any(a is None or b is None for a, b in items):
     return None
   return ('ok', {a[1]: b[1] for a, b in items})
+
+
+def prov(name):
+  """The provider probe a reference name (short, partial or complete selector) was written for."""
+  base = name.rsplit('.', 1)[-1]
+  late = _S.get('late')
+  if late and base == late['name']:
+    return late['p']
+  return _S['provs'][base]
+
+
+def map_refs(t, f):
+  k = t[0]
+  if k == 'ref':
+    return f(t)
+  if k in ('list', 'tuple'):
+    return [k, [map_refs(x, f) for x in t[1]]]
+  if k == 'dict':
+    return [k, [[map_refs(a, f), map_refs(b, f)] for a, b in t[1]]]
+  return t
+
+
+def completed(t):
+  """`t` as it has to be written once the twin is registered: references to the case's provider by complete selector."""
+  late = _S.get('late')
+  if not late or late['twin'] is None:
+    return t
+  return map_refs(t, lambda r: ['ref', late['p'].selector, r[2], r[3]] if r[1].rsplit('.', 1)[-1] == late['name'] else r)
+
+
+def relabel(x, old, new):
+  if isinstance(x, str):
+    return x.replace(old, new) if old in x else x
+  if isinstance(x, list):
+    return [relabel(y, old, new) for y in x]
+  if isinstance(x, tuple):
+    return tuple(relabel(y, old, new) for y in x)
+  if isinstance(x, dict):
+    return {relabel(k, old, new): relabel(v, old, new) for k, v in x.items()}
+  return x
+
+
+def resolve_refs(v, reg, bad):
+  """A value read back from the text with every reference named by the complete selector it resolves to (unresolvable ones -> bad)."""
+  if type(v) is tuple and len(v) == 3 and v[0] == '@ref' and isinstance(v[1], str):
+    sc, _, sel = v[1].rpartition('/')
+    try:
+      ent = reg.get_match(sel)
+    except KeyError:
+      ent = None
+    if ent is None:
+      bad.append(v[1])
+      return v
+    return ('@ref', (sc + '/' if sc else '') + ent.selector, v[2])
+  if type(v) is list:
+    return [resolve_refs(x, reg, bad) for x in v]
+  if type(v) is tuple:
+    return tuple(resolve_refs(x, reg, bad) for x in v)
+  if type(v) is dict:
+    return {resolve_refs(a, reg, bad): resolve_refs(b, reg, bad) for a, b in v.items()}
+  return v
 
 
 def tree_value(t, objs):
@@ -215,7 +293,7 @@ def tree_value(t, objs):
   return {tree_value(a, objs): tree_value(b, objs) for a, b in t[1]}
 
 
-def gen_tree(rng, depth):
+def gen_tree(rng, depth, late=False):
   r = rng.random()
   if depth <= 0 or r < 0.55:
     k = rng.random()
@@ -225,7 +303,8 @@ def gen_tree(rng, depth):
       scopes = [rng.choice(['s1', 's2'])] if rng.random() < 0.35 else []
       if scopes and rng.random() < 0.3:
         scopes = rng.choice([['s1', 's2'], ['s2', 's1'], ['s1', 's2', 's1']])   # a reference scope of several components
-      return ['ref', 'prov%d' % rng.randrange(3), scopes, rng.random() < 0.7]
+      name = rng.choice(LATE_SPELLINGS) if late and rng.random() < 0.45 else 'prov%d' % rng.randrange(3)
+      return ['ref', name, scopes, rng.random() < 0.7]
     if k < 0.86:
       return ['macro', rng.choice(['m0', 'mm/m1', 'm2'])]
     if k < 0.92:
@@ -233,10 +312,14 @@ def gen_tree(rng, depth):
     return ['obj', rng.choice(['opaque', 'set', 'nan', 'inf', 'lambda'])]
   n = rng.choice([1, 2, 3])
   if r < 0.8:
-    return ['list', [gen_tree(rng, depth - 1) for _ in range(n)]]
+    return ['list', [gen_tree(rng, depth - 1, late) for _ in range(n)]]
   if r < 0.9:
-    return ['tuple', [gen_tree(rng, depth - 1) for _ in range(n)]]
-  return ['dict', [[['lit', 'k%d' % i], gen_tree(rng, depth - 1)] for i in range(n)]]
+    return ['tuple', [gen_tree(rng, depth - 1, late) for _ in range(n)]]
+  return ['dict', [[['lit', 'k%d' % i], gen_tree(rng, depth - 1, late)] for i in range(n)]]
+
+
+def is_late(t):
+  return t[1].rsplit('.', 1)[-1] == LATE
 
 
 def has(t, kinds):
@@ -321,18 +404,41 @@ def iter_cases(ctx, rng, n):
     specs = [gen_consumer(rng, ['fn', 'init', 'method', 'new'][i % 4]), gen_consumer(rng, rng.choice(['fn', 'init', 'new']))]
     allspecs = specs + [SUB_SPEC, BASE_SPEC]
     binds = []
+    late = None
+    if ENABLE_LATE_REGISTRATION and rng.random() < 0.15:
+      late = {'api': rng.choice(['configurable', 'register', 'external']), 'twin_api': rng.choice(['configurable', 'register', 'external']),
+              'twin_shape': rng.choice(['fn', 'fn', 'init']), 'twin_module': rng.choice(TWIN_MODULES),
+              'cons': rng.choice([None, None, 0, 1]), 'cons_module': rng.choice(['c7k.m', 'zz.vfp.m', 'c7l.beta']),
+              'call': rng.choice([None, None, [], ['a'], ['a', 'b']])}
     for ci, spec in enumerate(allspecs):
       if ci >= 2 and not ENABLE_NESTED:
         break
       for x in bindable_names(spec):
         for sc in rng.sample(['', 'a', 'a/b', 'b'], rng.choice([0, 1, 1, 2] if ci < 2 else [0, 0, 1])):
-          binds.append([ci, sc, x, gen_tree(rng, rng.choice([0, 1, 2]))])
+          binds.append([ci, sc, x, gen_tree(rng, rng.choice([0, 1, 2]), bool(late))])
     graph = {'prov1': rng.choice([None, ['ref', 'prov0', [], True], ['ref', 'prov0', ['g1'], True]]),
              'prov2': rng.choice([None, None, ['ref', 'prov1', [], True], ['list', [['ref', 'prov0', [], True], ['lit', 5]]]])}
     macros = {'m0': rng.choice([['ref', 'prov0', [], True], ['lit', [1, [2]]], ['lit', 'mv']]),
               'mm/m1': rng.choice([['ref', 'prov2', [], True], ['list', [['ref', 'prov0', [], True]]], ['lit', 7]]),
               # a macro whose value is (or contains) another macro
               'm2': rng.choice([['macro', 'm0'], ['macro', 'mm/m1'], ['list', [['macro', 'm0'], ['lit', 3]]], ['dict', [[['lit', 'k'], ['macro', 'mm/m1']]]]])}
+    if late:
+      # the case's own provider: bound or not, reached through other providers and macros as well
+      graph[LATE] = rng.choice([None, None, ['lit', 7], ['ref', 'prov0', [], True]])
+      if rng.random() < 0.25:
+        graph['prov2'] = rng.choice([['ref', rng.choice(LATE_SPELLINGS), [], True], ['list', [['ref', rng.choice(LATE_SPELLINGS), ['g1'], False], ['lit', 5]]]])
+      if rng.random() < 0.3:
+        macros['m0'] = rng.choice([['ref', rng.choice(LATE_SPELLINGS), [], True], ['list', [['ref', rng.choice(LATE_SPELLINGS), [], False]]]])
+      if not any(any_ref(b[3], is_late) for b in binds if b[0] < 2):
+        t = rng.choice([['ref', rng.choice(LATE_SPELLINGS), [], rng.random() < 0.7], ['list', [['lit', 1], ['ref', rng.choice(LATE_SPELLINGS), ['s1'], True]]]])
+        own = [b for b in binds if b[0] < 2]
+        if own:
+          rng.choice(own)[3] = t
+        else:
+          ci = rng.randrange(2)
+          names = bindable_names(specs[ci])
+          if names:
+            binds.append([ci, '', rng.choice(names), t])
     history = []
     for _ in range(rng.choice([1, 2, 3, 4, 5, 6, 8])):
       if rng.random() < 0.12 and binds:
@@ -352,6 +458,9 @@ def iter_cases(ctx, rng, n):
       # a macro is given another value between calls, often after the last one: the record keeps what the calls were given
       at = len(history) if rng.random() < 0.6 else rng.randrange(len(history) + 1)
       history.insert(at, ['remacro', rng.choice(['m0', 'mm/m1']), rng.choice([['lit', 'redefined'], ['lit', [9, [8]]], ['ref', 'prov0', [], True]]), rng.random() < 0.5])
+    if late:
+      # the same-named configurable arrives at any point: before the first call, between calls, after the last one
+      history.insert(rng.randrange(len(history) + 1), ['register', late])
     # when the text is read and compared in mid-history: after every step / after one step / only at the end
     mid = rng.choice(['all', 'one', 'one', None, None, None, None, None]) if ENABLE_MID_READS else None
     yield {'specs': specs, 'binds': binds, 'graph': graph, 'macros': macros, 'history': history, 'mid': mid, 'mid_at': rng.randrange(len(history)),
@@ -392,8 +501,9 @@ class OpModel:
         self.evaluate(b, ambient)
 
   def call_provider(self, name, scope):
+    name = name.rsplit('.', 1)[-1]      # (a reference may be written with a partial or complete selector)
     self.prov_calls.append((name, tuple(scope)))
-    sel = _S['provs'][name].selector
+    sel = prov(name).selector
     vals = {'t': ['lit', 'dflt-t']}
     g = self.case['graph'].get(name)
     if g is not None:
@@ -543,7 +653,11 @@ def check_text(ctx, model, text, where):
       structure_ok &= bool(ctx.check(bool(own) and own[-1] == key[:2], 'binding-line-under-foreign-header',
                                      '%s: line %d binds %r but the nearest header above is for %r\n%s' % (where, line, key, own[-1:], text[:800])))
     structure_ok &= bool(ctx.check(key not in got_bind, 'operative-parameter-listed-twice', '%s: %r is listed twice\n%s' % (where, key, text[:800])))
-    got_bind[key] = v
+    bad = []
+    got_bind[key] = resolve_refs(v, gc._REGISTRY, bad)
+    # (the text is to be parsed as it stands: a reference in it that names no configurable, or several, cannot be replayed)
+    ctx.check(not bad, 'reference-in-operative-text-does-not-resolve',
+              '%s: %r holds reference(s) %r, which do not resolve to exactly one configurable\n%s' % (where, key, bad, text[:800]))
   if structure_ok and len(hdr_at) > 1 and sum(1 for st in stmts if st[3]) > 1:
     ctx.bucket('structure:binding-lines-under-own-header')
   ga = {k: canon(v) for k, v in got_bind.items()}
@@ -652,6 +766,7 @@ def run_history(ctx, case, plist, objs, model, phase, fmt=None):
     if h[0] == 'remacro':
       if phase == 'first':
         ctx.bucket('history:macro-redefined-after-use' if h[1] in model.macros_used else 'history:macro-redefined')
+        h[2] = completed(h[2])
         if h[3]:
           gin.parse_config('%s = %s\n' % (h[1], c04.tree_text(h[2])))
         else:
@@ -675,12 +790,15 @@ def run_history(ctx, case, plist, objs, model, phase, fmt=None):
         if (old is None or tree_repr(old) is not None) and tree_repr(tree) is None:
           tree = ['lit', 'rebound']
           h[4] = tree
+        tree = h[4] = completed(tree)   # (what is written after the twin arrived has to name its target unambiguously)
         if old is None and any(k[1] == p.selector and prm in vals for k, vals in model.op.items()):
           ctx.bucket('history:binding-added-after-default-recorded')
         gin.bind_parameter((sc, p.selector, prm), tree_value(tree, objs))
         model.bind.setdefault((sc, p.selector), {})[prm] = tree
         ctx.bucket('history:rebind')
       obs.append(('rebind',))
+    elif h[0] == 'register':
+      obs.append(run_register(ctx, plist, model, phase, h[1]))
     else:
       obs.append(run_call(ctx, case, plist, model, phase, h, ci_of))
     if phase == 'first' and (case.get('mid') == 'all' or (case.get('mid') == 'one' and case.get('mid_at') == hi)) and hi < len(case['history']) - 1:
@@ -691,6 +809,38 @@ def run_history(ctx, case, plist, objs, model, phase, fmt=None):
       if h[0] == 'rebind' and any(x[0] == 'call' for x in case['history'][:hi]):
         ctx.bucket('text:read-after-rebind-before-next-call')
   return obs
+
+
+def run_register(ctx, plist, model, phase, info):
+  """A configurable named like the case's provider is registered in another module (first phase only: the registry outlives clear_config);
+  optionally one named like a consumer; optionally the twin is called (in both phases): it has a section of its own."""
+  import gin
+  late = _S['late']
+  if phase == 'first':
+    late['twin'] = twin = probes.build({'shape': info['twin_shape'], 'api': info['twin_api'], 'name': late['name'], 'module': info['twin_module'], 'pos': [],
+                                        'dflt': [['t', 'dflt-t']], 'varargs': False, 'kwonly': [], 'varkw': False})
+    _S['pids'][twin.pid] = late['name'] + '#twin'
+    bound = any(any_ref(t, lambda r: prov(r[1]) is late['p']) for vals in model.bind.values() for t in vals.values())
+    bound = bound or any(t is not None and any_ref(t, lambda r: prov(r[1]) is late['p']) for t in list(model.macros.values()) + list(model.case['graph'].values()))
+    if bound:
+      ctx.bucket('history:same-named-configurable-registered-after-reference-was-bound')
+    if info['cons'] is not None:
+      p = plist[info['cons']]
+
+      def other(z=0):
+        return z
+      gin.external_configurable(other, p.cls_name if p.spec['shape'] == 'method' else p.name, module=info['cons_module'])
+      ctx.bucket('history:same-named-twin-of-consumer-registered')
+  twin = late['twin']
+  if info['call'] is None:
+    return ('register',)
+  mark = probes.RECORDER.mark()
+  with gin.config_scope(list(info['call'])):
+    probes.call_probe(twin, [], {})
+  if model is not None:
+    model.record(info['call'], twin.selector, {'t': ['lit', 'dflt-t']})
+    ctx.bucket('history:same-named-twin-called')
+  return ('register', tuple((_S['pids'].get(r.pid), r.scope, normalise(r.received)) for r in probes.RECORDER.since(mark)))
 
 
 def run_call(ctx, case, plist, model, phase, h, ci_of):
@@ -726,7 +876,7 @@ def run_call(ctx, case, plist, model, phase, h, ci_of):
     raised = True
   recs = probes.RECORDER.since(mark)
   cons = [r for r in recs if r.pid in ci_of]
-  provs = sorted((_S['by_pid'][r.pid], r.scope) for r in recs if r.pid in _S['by_pid'])
+  provs = sorted((_S['pids'][r.pid], r.scope) for r in recs if r.pid in _S['pids'])
   received = cons[0].received if cons else None
   ob = ('call', tuple((ci_of[r.pid], r.scope, normalise(r.received)) for r in cons), provs, raised)
   if phase == 'first' and received and bound_here:
@@ -796,8 +946,8 @@ def equal_but_different(t):
 
 def normalise(v):
   """Shape of a received value modulo provider result counters."""
-  if isinstance(v, list) and len(v) == 3 and v[0] == 'ret' and v[1] in _S['by_pid']:
-    return ('prov', _S['by_pid'][v[1]])
+  if isinstance(v, list) and len(v) == 3 and v[0] == 'ret' and v[1] in _S['pids']:
+    return ('prov', _S['pids'][v[1]])
   if callable(v):
     return ('callable', getattr(v, '__name__', '?'))
   if type(v) in (list, tuple):
@@ -810,8 +960,18 @@ def normalise(v):
 
 def run_case(ctx, case):
   import gin
+  from gin import config as gc
   gin.clear_config()
   _S['plan'].clear()
+  _S['pids'] = dict(_S['by_pid'])
+  _S['late'] = None
+  if any(h[0] == 'register' for h in case['history']):
+    info = [h[1] for h in case['history'] if h[0] == 'register'][0]
+    lp = probes.build({'shape': 'fn', 'api': info['api'], 'name': None, 'module': LATE_MODULE, 'pos': [], 'dflt': [['t', 'dflt-t']], 'varargs': False,
+                       'kwonly': [], 'varkw': False})
+    case = relabel(case, LATE, lp.name)      # (a copy: the names in it are those registered for this run of the case)
+    _S['late'] = {'name': lp.name, 'p': lp, 'twin': None}
+    _S['pids'][lp.pid] = lp.name
   plist = [build_hooked(s) for s in case['specs']] + list(_S['fixed'])
   for p in plist[:2]:
     ctx.bucket('shape:' + p.spec['shape'])
@@ -880,6 +1040,14 @@ def run_case(ctx, case):
         ctx.bucket('param:default-shown')
   if any(k[2] and k[1] in (plist[0].selector, plist[1].selector) for k in exp_bind):
     ctx.bucket('param:binding-shown')
+  late = _S['late']
+  if late and late['twin'] is not None:
+    def ambiguous(r):
+      return prov(r[1]) is late['p'] and len(gc._REGISTRY.matching_selectors(r[1])) > 1
+    if any(tree_repr(t) is not None and any_ref(t, ambiguous) for vals in model.op.values() for t in vals.values()):
+      ctx.bucket('ref:recorded-reference-written-with-now-ambiguous-selector')
+    if any(tree_repr(t) is not None and any_ref(t, ambiguous) for t in model.macros_used.values()):
+      ctx.bucket('section:macro-holding-reference-written-with-now-ambiguous-selector')
   ncalls = sum(1 for h in case['history'] if h[0] == 'call')
   if ncalls >= 5:
     ctx.bucket('history:5+calls')
@@ -926,6 +1094,8 @@ def run_case(ctx, case):
     obs2 = run_history(ctx, case, plist, objs, None, 'replay')
     ctx.count('replays')
     ctx.bucket('replay:done')
+    if late and late['twin'] is not None:
+      ctx.bucket('replay:after-late-registration')
     for a, b in zip(obs1, obs2):
       ctx.check(a == b, 'replay-differs', 'replaying the operative config: first run %r, replay %r' % (a, b), {'text': text[:1500]})
     text2 = gin.operative_config_str(**kw)
